@@ -55,7 +55,7 @@ EXPECTED_PROBES = ["outcome.datetime", "outcome.ParserError",
                    "outcome.OverflowError", "outcome.TypeError",
                    "outcome.tokens", "long_digit_run", "unicode_digit",
                    "clock_jump", "set_tz", "stream_fault_passed_through",
-                   "repeat_identical"]
+                   "repeat_identical", "fresh_process_identical"]
 
 REAL = ['dateutil.parser from /repo/src', 'decimal, re, io.StringIO from CPython', 'glibc tzset under the real TZ variable', 'real OS threads in the threads class']
 STUB = ['text streams (one character per read, injected exception / early EOF)', 'wall clock (SimClock)', 'thread scheduling (LINE events of parser/_parser.py)', "warnings delivery (per-thread recorder, 'always' filter)"]
@@ -138,6 +138,15 @@ def valid_rendering(rng):
 
 def gen_text(rng):
     r = rng.random()
+    if r < 0.12:
+        # a well-formed date and time followed by a zone word that is a local
+        # abbreviation under some of the process-TZ settings
+        y = rng.choice([1999, 2003, 2021, 2024])
+        return "%04d-%02d-%02d %02d:%02d:%02d %s" % (
+            y, rng.randrange(1, 13), rng.randrange(1, 29), rng.randrange(24),
+            rng.randrange(60), rng.randrange(60),
+            rng.choice(["EST", "EDT", "CET", "CEST", "UTC", "GMT", "XYZ",
+                        "Z", "BRST"]))
     if r < 0.25:
         s = valid_rendering(rng)
         for _ in range(rng.choice([0, 1, 1, 2, 3])):
@@ -211,7 +220,8 @@ def gen_call(rng):
     return ["parse", via, inp, opts]
 
 
-TZ_SETTINGS = [None, "UTC", "EST5EDT", "CET-1CEST", "XYZ-3:30"]
+TZ_SETTINGS = [None, "UTC", "EST5EDT", "CET-1CEST", "XYZ-3:30",
+               "EST-10EDT,M10.1.0,M4.1.0/3", "CET-3CEST"]
 CLOCKS = [946684799.0, 946684800.0, 2524607999.0, 1709164800.0, 1e9,
           4102444799.0, 0.0, 1735689599.5]
 
@@ -499,6 +509,11 @@ def classify(ctx, call, out, text_len, fault_exc=None):
                   dict(call=short(call), exc=name, msg=msg[:200], mro=mro[:4]))
 
 
+def _plain(x):
+    import json
+    return json.loads(json.dumps(x, default=repr))
+
+
 def short(call):
     c = _copy.deepcopy(call)
     t = c[2][1] if len(c[2]) > 1 and isinstance(c[2][1], str) else None
@@ -529,6 +544,12 @@ class Env(object):
             init.get("clock", 1e9))
         self.parsers = [parser.parser(parser.parserinfo()),
                         parser.parser(parser.parserinfo(dayfirst=True))]
+        # how each explicit parser came to be (for the fresh-process oracle)
+        self.parser_info = [
+            dict(dayfirst=False, yearfirst=False, clock=self.clock.t,
+                 tz=self.tz),
+            dict(dayfirst=True, yearfirst=False, clock=self.clock.t,
+                 tz=self.tz)]
 
     def set_tz(self, v):
         import os
@@ -555,6 +576,8 @@ class Env(object):
             P = self.parser_mod
             self.parsers[op[1]] = P.parser(P.parserinfo(dayfirst=op[2],
                                                         yearfirst=op[3]))
+            self.parser_info[op[1]] = dict(dayfirst=op[2], yearfirst=op[3],
+                                           clock=self.clock.t, tz=self.tz)
         ctx.event("world", op)
 
     def invoke(self, call):
@@ -586,6 +609,112 @@ class Env(object):
         self.parsers[0], self.parsers[1] = snap[2], snap[3]
 
 
+class Pristine(object):
+    """Fresh-process oracle for 'no state is left behind': a child forked
+    before the first call of the run keeps the module state of a process
+    that has parsed nothing; every question is answered in a grandchild, so
+    the server never accumulates state either. The outcome of a call after
+    any history must equal its outcome there."""
+
+    def __init__(self):
+        import os
+        self.os = os
+        q_r, q_w = os.pipe()
+        a_r, a_w = os.pipe()
+        pid = os.fork()
+        if pid == 0:
+            try:
+                os.close(q_w)
+                os.close(a_r)
+                self._serve(q_r, a_w)
+            finally:
+                os._exit(0)
+        os.close(q_r)
+        os.close(a_w)
+        self.pid, self.q_w, self.a_r = pid, q_w, a_r
+
+    @staticmethod
+    def _read_exact(os, fd, n):
+        buf = b""
+        while len(buf) < n:
+            b = os.read(fd, n - len(buf))
+            if not b:
+                return None
+            buf += b
+        return buf
+
+    def _serve(self, q_r, a_w):
+        import json
+        import struct
+        os = self.os
+        K.budget = None
+        while True:
+            hdr = self._read_exact(os, q_r, 4)
+            if hdr is None:
+                return
+            req = json.loads(self._read_exact(
+                os, q_r, struct.unpack(">I", hdr)[0]).decode())
+            pid = os.fork()
+            if pid == 0:
+                try:
+                    out = self._answer(req)
+                    data = json.dumps(out, default=repr).encode()
+                    os.write(a_w, struct.pack(">I", len(data)) + data)
+                finally:
+                    os._exit(0)
+            os.waitpid(pid, 0)
+
+    @staticmethod
+    def _answer(req):
+        class _Ctx(object):
+            def fault(self, kind, n=1):
+                pass
+
+            def probe(self, name, n=1):
+                pass
+        env = Env.__new__(Env)
+        from dateutil import parser
+        env.parser_mod = parser
+        env.ctx = _Ctx()
+        env.clock = simclock.install()
+        env.tz = "<unset>"
+        env.parsers = []
+        env.parser_info = []
+        for info in req["parsers"]:
+            env.set_tz(info["tz"])
+            env.clock.t = info["clock"]
+            env.parsers.append(parser.parser(parser.parserinfo(
+                dayfirst=info["dayfirst"], yearfirst=info["yearfirst"])))
+        env.set_tz(req["tz"])
+        env.clock.t = req["clock"]
+        install_warning_recorder()
+        try:
+            return env.invoke(req["call"])
+        except BaseException as e:
+            return ["oracle-error", type(e).__name__, str(e)[:200]]
+
+    def ask(self, env, call):
+        import json
+        import struct
+        req = dict(tz=env.tz, clock=env.clock.t, parsers=env.parser_info,
+                   call=call)
+        data = json.dumps(req).encode()
+        self.os.write(self.q_w, struct.pack(">I", len(data)) + data)
+        hdr = self._read_exact(self.os, self.a_r, 4)
+        if hdr is None:
+            raise RuntimeError("pristine oracle died")
+        n = struct.unpack(">I", hdr)[0]
+        return json.loads(self._read_exact(self.os, self.a_r, n).decode())
+
+    def close(self):
+        try:
+            self.os.close(self.q_w)
+            self.os.close(self.a_r)
+            self.os.waitpid(self.pid, 0)
+        except OSError:
+            pass
+
+
 def run_call(env, ctx, call, tag, fault_exc=None):
     K.set_budget(budget_for(call))
     s0 = K.steps
@@ -613,6 +742,8 @@ def execute(cls, scenario, ctx):
     if cls in ("calls", "stream"):
         done = []
         classes = set()
+        pristine = Pristine()
+        asked = 0
         for op in scenario["ops"]:
             if op[0] != "parse":
                 env.world_op(op)
@@ -633,6 +764,20 @@ def execute(cls, scenario, ctx):
                 ctx.probe("unicode_digit")
             classes.add(out[0] if out[0] != "exc" else out[1])
             done.append((op, snap, out))
+            # (c') the same call in a process that has parsed nothing
+            if asked < 8 and (len(done) % 3 == 0 or len(done) > 4):
+                asked += 1
+                fresh = pristine.ask(env, op)
+                ctx.checks += 1
+                if fresh and fresh[0] == "oracle-error":
+                    raise RuntimeError("pristine oracle: %r" % (fresh,))
+                if fresh != _plain(out):
+                    ctx.violation("C14.depends_on_history",
+                                  dict(call=short(op), here=out[:3],
+                                       fresh_process=fresh[:3]))
+                else:
+                    ctx.probe("fresh_process_identical")
+        pristine.close()
         # (c) determinism / no residue: repeat everything in another order
         order = list(range(len(done)))
         random.Random(scenario.get("repeat_seed", 0)).shuffle(order)
